@@ -1436,6 +1436,126 @@ def main(xs, k):
 
 print(main([inp(), inp()], inp()))
 ''')
+_add("fixes.replace_dict_assign_with_dict_literal", "read-in-the-middle-of-the-run", '''
+def main(x):
+    d = {}
+    d[1] = x
+    d[2] = d[1]
+    d[1] = 7000
+    d[3] = 5
+    return d, list(d)
+
+
+print(main(inp()))
+''')
+_add("fixes.replace_dict_assign_with_dict_literal", "read-in-key-then-overwrite", '''
+def main(x):
+    d = {0: x}
+    d[d[0]] = 1
+    d[0] = 9
+    d[5] = len(d)
+    d[6] = 7000
+    return d, list(d)
+
+
+print(main(inp()))
+''')
+_add("fixes.replace_dict_update_with_dict_literal", "read-in-the-middle-of-the-run", '''
+def main(x):
+    d = {"a": x}
+    d.update({"b": 2})
+    d.update({"c": d["a"]})
+    d.update({"a": 7000})
+    d.update({"e": 5})
+    return d, list(d)
+
+
+print(main(inp()))
+''')
+_add("fixes.replace_dictcomp_assign_with_dict_literal", "read-in-the-middle-of-the-run", '''
+def main(x):
+    d = {k: k + x for k in (1, 2)}
+    d[3] = d[1]
+    d[1] = 7000
+    d[4] = 4
+    return d, list(d)
+
+
+print(main(inp()))
+''')
+_add("fixes.replace_dictcomp_update_with_dict_literal", "read-in-the-middle-of-the-run", '''
+def main(x):
+    d = {k: k + x for k in (1, 2)}
+    d.update({3: d[2]})
+    d.update({2: 7000})
+    d.update({5: 5})
+    return d, list(d)
+
+
+print(main(inp()))
+''')
+_add("fixes.move_before_loop", "default-before-inner-loop-target", '''
+def main(rows):
+    out = []
+    for row in rows:
+        last = 0
+        for last in row:
+            pass
+        out.append(last)
+    return out
+
+
+print(main([[inp(), 2], [], [3], []]))
+''')
+_add("fixes.move_before_loop", "default-before-with-and-try-targets", '''
+class cm:
+    def __init__(self, v):
+        self.v = v
+
+    def __enter__(self):
+        return self.v
+
+    def __exit__(self, *args):
+        return False
+
+
+def main(xs):
+    out = []
+    for x in xs:
+        got = -1
+        if x > 0:
+            with cm(x) as got:
+                pass
+        err = None
+        try:
+            if x < 0:
+                raise ValueError(x)
+        except ValueError as err:
+            out.append("caught")
+        out.append(got)
+    return out
+
+
+print(main([inp(), inp(), 1, -1]))
+''')
+_add("fixes.undefine_unused_variables", "default-before-loop-target-module-level", '''
+count = -1
+for count, tok in enumerate([7, 8][: inp()]):
+    print("tok", tok)
+print(count)
+''')
+_add("fixes.undefine_unused_variables", "default-before-loop-target-in-function", '''
+def main(items):
+    index = -1
+    item = None
+    for index, item in enumerate(items):
+        if item > 1:
+            break
+    return index, item
+
+
+print(main([1, 2, 3][: inp()]), main([]))
+''')
 _add("fixes.replace_functions_with_literals", "all", '''
 def main(xs):
     a = list()
@@ -3092,6 +3212,12 @@ TRICKY = [
     ("fixes.add_missing_imports", "future-parenthesised", 'from __future__ import (\n    annotations,\n)\n\nprint(os.sep, inp())\n'),
     ("fixes.add_missing_imports", "formfeed-in-string", 'x = "a\x0cb"\nprint(os.sep, x, inp())\n'),
     ("fixes.add_missing_imports", "docstring-and-future", '"""doc"""\nfrom __future__ import annotations\n\nprint(os.sep, inp())\n'),
+    ("fixes.add_missing_imports", "parenthesised-docstring", '(\n    "first part of the module docstring, "\n    "second part"\n)\n\nprint(os.sep, inp())\n'),
+    ("fixes.add_missing_imports", "parenthesised-docstring-then-future", '(\n    "doc"\n)\nfrom __future__ import annotations\n\nprint(os.sep, inp())\n'),
+    ("fixes.add_missing_imports", "docstring-with-trailing-comment-lines", '"""doc"""  # comment\n# another comment\n\n\nprint(os.sep, inp())\n'),
+    ("fixes.add_missing_imports", "docstring-semicolon-statement", '"""doc"""; x = 1\nprint(os.sep, x, inp())\n'),
+    ("fixes.add_missing_imports", "docstring-backslash-continuation", '"""doc""" \\\n    .strip()\nprint(os.sep, inp())\n'),
+    ("fixes.add_missing_imports", "only-a-docstring-then-code-on-last-line", '"""doc"""\nprint(os.sep, inp())'),
     ("fixes.add_missing_imports", "shebang-and-comment", '#!/usr/bin/env python3\n# comment\nprint(os.sep, inp())\n'),
     ("fixes.move_imports_to_toplevel", "toplevel-from-import-last-line", 'def main(v):\n    import os\n    return os.sep, v\n\n\nprint(main(inp()))\nfrom os import sep'),
     ("fixes.move_imports_to_toplevel", "import-in-function-and-class", 'class A:\n    import os\n\n    def m(self, v):\n        import os.path\n        return os.path.sep, v\n\n\nprint(A().m(inp()))\n'),
@@ -3118,7 +3244,7 @@ def tricky_skeletons():
     that need a missing import or start with a __future__ import are not executed anywhere)."""
     out = []
     for rule, vid, body in TRICKY:
-        text = body if "__future__" in body or body.startswith("#!") else prelude(3) + body
+        text = body if "__future__" in body or body.startswith(("#!", "(", '"""')) else prelude(3) + body
         out.append(Skeleton("tricky/%s/%s" % (rule.split(".")[-1], vid), text, tape=3, fuel=400,
                             meta={"rule": "rule:" + rule, "first_line": 0 if text is body else prelude(3).count("\n") + 1}))
     return out
